@@ -595,6 +595,7 @@ func rulesC05(c *Ctx) {
 		c.goroutineRules([]string{pJ, pM})
 	})
 
+	c.Import("R-C05-14", "Close waits for exactly the handlers that are running: every accepted request is counted on all paths of the accepting closure and un-counted once by processResult (a request refused without having been counted would un-count a running handler: Close returns, and closes the transport, under it)", "C02", "R-C02-1", func(k string) bool { return strings.HasPrefix(k, "acceptRequest:count") || strings.HasPrefix(k, "processResult:decrement") || strings.HasPrefix(k, "incoming--") })
 	c.Import("R-C05-11", "Close cannot be held up by a call that was abandoned: cancelCall retires the call on every path (the long-lived subscriptions/listen call is retired only this way)", "C04", "R-C04-1", func(k string) bool { return strings.HasPrefix(k, "cancelCall:retire") })
 	c.Import("R-C05-12", "no idle timer survives its session: start/end are paired, stopTimer stops and forgets the timer, the callback only closes the session", "C11", "R-C11-4", func(k string) bool {
 		return strings.HasPrefix(k, "stopTimer") || strings.HasPrefix(k, "startPOST") || strings.HasPrefix(k, "endPOST") || strings.HasPrefix(k, "idle-timer")
